@@ -137,3 +137,88 @@ def success_orderings(match_node):
         else:
             other |= cur
     return succ, fail, other
+
+
+# ---- generic "test of an Ordering-valued call" recogniser --------------------------------------
+
+UNIVERSE4 = {"Less", "Equal", "Greater", "None"}
+
+
+def _call_to(n, rx):
+    if n["k"] in ("Call", "MethodCall"):
+        r = n.get("resolved") or n.get("callee") or ""
+        return re.search(rx, r) is not None
+    return False
+
+
+def option_ordering_set(pat):
+    """Outcomes (Less/Equal/Greater/None) matched by a pattern over Option<Ordering> or Ordering."""
+    out = set()
+    for leaf in pat_leaves(pat):
+        leaf = strip_ref(leaf)
+        rn = res_name(leaf) or ""
+        if leaf["k"] == "PTupleStruct" and rn.endswith("::Some"):
+            inner = option_ordering_set(leaf["pats"][0])
+            if "*" in inner:
+                inner = (inner - {"*"}) | ALL_ORD
+            out |= inner - {"None"}
+        elif rn.endswith("::None"):
+            out.add("None")
+        elif re.search(r"cmp::Ordering::(Less|Equal|Greater)$", rn):
+            out.add(rn.rsplit("::", 1)[1])
+        elif leaf["k"] in ("PWild", "PBind"):
+            out.add("*")
+        else:
+            out.add("?" + (rn or leaf["k"]))
+    return out
+
+
+def ordering_tests(body, cmp_rx, negeq_rx=None, universe=UNIVERSE4):
+    """Find the tests of an ordering call (callee matching cmp_rx) in `body` and return, per site,
+    dict(kind, args, succ, fail, other): the outcome sets on which the branch advances p /
+    backtracks. Recognised shapes: `match call {..}`, `if let PAT = call {..} else {..}`, and
+    `if negeq_call {..} else {..}` where negeq_rx names a bool function that is true iff the
+    outcome is not Equal."""
+    sites = []
+    for n in walk(body):
+        if n["k"] == "Match" and _call_to(n["scrut"], cmp_rx):
+            named = set()
+            succ, fail, other = set(), set(), set()
+            for arm in n["arms"]:
+                s = option_ordering_set(arm["pat"])
+                if "*" in s:
+                    s = (s - {"*"}) | (universe - named)
+                cur = {x for x in s if x in universe} - named
+                named |= cur
+                eff = arm_effect(arm["body"])
+                (succ if eff == "advance" else fail if eff == "backtrack" else other).update(cur)
+            sites.append(dict(kind="match", call=n["scrut"], succ=succ, fail=fail, other=other | (universe - named)))
+        elif n["k"] == "If":
+            c = n["cond"]
+            neg = False
+            while c["k"] == "Unary" and c.get("op") == "Not":
+                neg = not neg
+                c = c["a"]
+            tset = None
+            call = None
+            if c["k"] == "LetCond" and _call_to(c["init"], cmp_rx):
+                s = option_ordering_set(c["pat"])
+                if "*" in s:
+                    s = set(universe)
+                tset = {x for x in s if x in universe}
+                call = c["init"]
+            elif negeq_rx and _call_to(c, negeq_rx):
+                tset = universe - {"Equal"}
+                call = c
+            if tset is None:
+                continue
+            if neg:
+                tset = universe - tset
+            eset = universe - tset
+            te = arm_effect(n["then"])
+            ee = arm_effect(n["else"]) if "else" in n else "none"
+            succ, fail, other = set(), set(), set()
+            (succ if te == "advance" else fail if te == "backtrack" else other).update(tset)
+            (succ if ee == "advance" else fail if ee == "backtrack" else other).update(eset)
+            sites.append(dict(kind="if", call=call, succ=succ, fail=fail, other=other))
+    return sites
